@@ -1,5 +1,6 @@
 use std::{
     cmp::Ordering,
+    mem,
     ops::Not,
     pin::Pin,
     task::{self, ready, Poll},
@@ -688,7 +689,12 @@ where
         }
         VectorDiff::Truncate { length: new_length } => {
             // Keep values where their `unsorted_index` is lower than the `new_length`.
-            buffered_vector.retain(|(unsorted_index, _)| *unsorted_index < new_length);
+            // (Not `Vector::retain`: in imbl 5.0 it keeps the wrong elements once a
+            // vector of more than one chunk has been shifted at the front.)
+            *buffered_vector = mem::take(buffered_vector)
+                .into_iter()
+                .filter(|(unsorted_index, _)| *unsorted_index < new_length)
+                .collect();
             result.push(VectorDiff::Truncate { length: new_length });
         }
         VectorDiff::Reset { values: new_values } => {
